@@ -109,9 +109,21 @@ fn switch(mut st: MutexGuard<'static, State>, me: usize) {
         // observe whether the lock was released), otherwise nothing can run.
         if st.status[me] == Status::Spinning {
             st.status[me] = Status::Runnable;
+            // Nobody else can run, so nobody can release the lock `me` spins on: a mutex locked by
+            // `me` itself, or left "locked" in memory that was freed (and poisoned) under it.
+            let n = SPINS.with(|c| {
+                c.set(c.get() + 1);
+                c.get()
+            });
+            if n > 100 {
+                SPINS.with(|c| c.set(0));
+                drop(st);
+                panic!("deadlock: this thread spins on a mutex nobody else can release (taken by itself, or inside freed memory)");
+            }
         }
         return;
     }
+    SPINS.with(|c| c.set(0));
     st.steps += 1;
     let chosen = if options.len() == 1 || st.steps > MAX_STEPS {
         0
